@@ -140,7 +140,16 @@ def run_history(case, ctx, bm):
         ctx.clause("I1.joints")
         e = max(tol.maxabs(bjs - bs), tol.maxabs(tjs - ts))
         if not (e <= 1e-9 * sc):
-            viol("I1.joints", "joints_not_plate_times_local" + ("/after_un-invert" if uninverted[0] else ""), err=e,
+            # mechanism of the known finding, recognised from the published state alone as well (the hook on the private method is
+            # only a second witness): the top joint pattern is a MIRROR image of the plate-fixed one w.r.t. the published top pose
+            def chir(P):
+                c = P.mean(axis=1, keepdims=True)
+                Q = P - c
+                return float(sum(np.cross(Q[:, i], Q[:, (i + 1) % 6]) @ Tm[:3, 2] for i in range(6)))
+            mirrored = chir(tjs) * chir(ts) < 0
+            if mirrored != uninverted[0]:
+                ctx.bump("corrective_paths", "un-invert_witnesses_disagree")
+            viol("I1.joints", "joints_not_plate_times_local" + ("/after_un-invert" if (uninverted[0] or mirrored) else ""), err=e,
                  bottom_err=tol.maxabs(bjs - bs), top_err=tol.maxabs(tjs - ts))
             ok = False
         ctx.clause("I2.lengths")
@@ -193,13 +202,14 @@ def run_history(case, ctx, bm):
 
     model_spun_away = [False]
     uninverted = [False]
-    _orig_fix = sp._fixUpsideDown
+    _orig_fix = getattr(sp, "_fixUpsideDown", None)
 
     def _fix_rec(*a, **k):           # observation only: which corrective path ran during this call
         uninverted[0] = True
         ctx.bump("corrective_paths", "un-invert")
         return _orig_fix(*a, **k)
-    sp._fixUpsideDown = _fix_rec
+    if _orig_fix is not None:
+        sp._fixUpsideDown = _fix_rec
     for step, op in enumerate(case["ops"]):
         uninverted[0] = False
         k = op["op"]
